@@ -19,6 +19,13 @@ def filter (req : Json) : R Reply := do
              slantNonzero := ← asBool (← field o "slantNonzero"), tanSlant := ← asRat (← field o "tanSlant"),
              originHeight := ← asRat (← field o "originHeight") }
   let m ← (if fname == "transformations" then tMatrix <$> topts else pure Affine.id)
+  -- the predicate is evaluated against the REQUESTED matrix (Spec.requestedMatrix: slant, then scale, about the origin
+  -- height, then offset - written down pointwise), not against the matrix the model/filter builds
+  -- (Props: tMatrix_eq_requested shows the two coincide for the modelled code)
+  let mReq ← (if fname == "transformations" then requestedMatrix <$> topts else pure Affine.id)
+  -- "inexact": the Slant stream (tan is irrational; doubles round): tolerance form of the predicate
+  let inexact := ((i.getObjVal? "inexact").toOption.bind (fun j => j.getBool?.toOption)).getD false
+  let eps : Q := 1 / 1000000
   -- `_bounds` of the components of mark-ligature composites: the model's own rule for line outlines (`lineBounds`);
   -- the pen's value measured by the harness only where the outline has curve segments
   let tableJ := (i.getObjVal? "bounds").toOption.getD (Json.arr #[])
@@ -65,7 +72,8 @@ def filter (req : Json) : R Reply := do
     | none =>
       let after ← asGlyphSet (← field obs "glyphs")
       let bad : List String ← (match fname with
-        | "transformations" => pure (transformWrong m incl gs after)
+        | "transformations" =>
+            pure (if inexact then transformWrongApprox eps mReq incl gs after else transformWrong mReq incl gs after)
         | "propagateAnchors" => do
             let sm ← asList asStr (← field obs "secondModified")
             let ss ← asBool (← field obs "secondSame")
